@@ -204,7 +204,7 @@ def report(mod, prop, tier, seed, units, results, extra, t0, origin, args):
                     ri = rep(u, ob)
                 else:
                     ri = engine.replay_custom(u, ob["model"])
-            except Exception as e:     # noqa: BLE001
+            except BaseException as e:     # noqa: BLE001
                 ri = {"reproduced": False, "note": "replay error %s: %s" % (type(e).__name__, e)}
             info["native_replay"] = ri
             reproduced = bool(ri.get("reproduced"))
